@@ -2,6 +2,7 @@
 // (three-way with the extracted model, which prints the same canonical line).
 // stdin, one case per line:
 //   <id> V <type> <op2 token>...                      two vectors a, b on one SwissMemoryResource
+//   <id> A <type> <op2 token>...                      same, with aliasing ops pba.i / insa.pos.i / insna.pos.n.i (no model)
 //   <id> M <type> <interval> <cycles> <op token>...   one vector managed by a SwissManager, same workload every cycle
 //   <id> S <interval> <cycles> <seed>                 one managed SwissString against std::string (monitors only)
 // type: i int | c counting element | s SwissString | n SwissVector<int> | b std::basic_string<char,..,SwissAllocator>
@@ -217,6 +218,15 @@ static void apply(SwissVector<T>& v, std::vector<int>& r, const std::vector<std:
     v.assign(N(1)); r.assign(N(1), 0);
   } else if (o == "set") {
     v[N(1)] = E::make(K(2)); r[N(1)] = K(2);
+  } else if (o == "pba") {        // push_back(v[i]) : the argument aliases an element (std::vector must cope)
+    int k = r[N(1)];
+    v.push_back(v[N(1)]); r.push_back(k);
+  } else if (o == "insa") {       // insert(pos, v[i])
+    int k = r[N(2)];
+    v.insert(v.begin() + N(1), v[N(2)]); r.insert(r.begin() + N(1), k);
+  } else if (o == "insna") {      // insert(pos, n, v[i])
+    int k = r[N(3)];
+    v.insert(v.begin() + N(1), N(2), v[N(3)]); r.insert(r.begin() + N(1), N(2), k);
   } else {
     fprintf(stderr, "bad op %s\n", o.c_str());
     exit(2);
@@ -474,7 +484,7 @@ int main() {
     std::vector<std::string> toks;
     std::string t;
     while (is >> t) toks.push_back(t);
-    if (mode == "V") {
+    if (mode == "V" || mode == "A") {   // A: operations whose argument aliases an element (not given to the model)
       if (ty == "i") run_v<int>(id, toks);
       else if (ty == "c") run_v<Counting>(id, toks);
       else if (ty == "s") run_v<SwissString>(id, toks);
